@@ -13,6 +13,7 @@ import glob
 import json
 import os
 import random
+import re
 import threading
 import vlib
 
@@ -229,7 +230,7 @@ def run_cases(ctx, exe, tasks):
         ok, n = vlib.record_and_validate(ctx, exe, [mode, sp, tr], tr, D, tla, cfg, "%s: %d executions on the real code" % (name, len(part)),
                                          tlc_env={"JAVA_TOOL_OPTIONS": "-Xss64m"})
         return ok, n, replayed
-    with cf.ThreadPoolExecutor(max_workers=max(1, min(len(units), vlib.NCPU))) as ex:
+    with cf.ThreadPoolExecutor(max_workers=max(1, min(len(units), vlib.NCPU, 8))) as ex:
         res = list(ex.map(one, units))
     for ok, n, replayed in res:
         if ok and replayed:
@@ -243,7 +244,12 @@ def replay(ctx, exe):
     lines = [json.loads(x) for x in open(ctx.replay_path) if x.strip().startswith("{")]
     first = next((e for e in lines if e.get("e") in ("Stream", "Begin")), None)
     if first is None:
-        raise vlib.Infra("replay file holds no execution of the driver (model-level violations are reproduced by re-running the check)")
+        m = re.search(r"mc-(\w+?)_tla_(\w+?)_cfg", os.path.basename(ctx.replay_path))
+        if not m:
+            raise vlib.Infra("replay file holds neither an execution of the driver nor a model-checking counterexample")
+        ctx.tlc_mc(D, m.group(1) + ".tla", m.group(2) + ".cfg", coverage=False, timeout=1800)      # model-level violation: re-run that model
+        cleanup_ttrace()
+        return
     if first["e"] == "Begin":
         run_cases(ctx, exe, [("srv", [first["script"]], "replay", ("Trace_HttpPipeline.tla", "Trace_HttpPipeline.cfg"), True, 1)])
     else:
@@ -272,6 +278,9 @@ def run(ctx):
     q = ctx.quick()
     rnd = random.Random(ctx.seed * 7919 + 12)
     par = max(1, min(8, vlib.NCPU))
+
+    def parts_for(n):                    # chunks of at most ~5000 executions, at least one per worker
+        return max(par, (n + 4999) // 5000)
 
     # 1. the designs; 2./4. the generators ------------------------------------------------------------------------------------------
     def mc(args):
@@ -306,7 +315,7 @@ def run(ctx):
     ctx.notes.append("Gen_HttpParse: %d (stream, cuts) pairs executed on RequestParser; every 7th also through a real Server" % len(cases))
     ctx.sample({"kind": "model (stream, cuts) pair executed on the real RequestParser", "stream": bytes(pairs[0]["bytes"]).decode("latin-1"),
                 "cuts": pairs[0]["cuts"]})
-    tasks.append(("parse", cases, "gen_parse", PT, True, par))
+    tasks.append(("parse", cases, "gen_parse", PT, True, parts_for(len(cases))))
     tasks.append(("srv", [dict(c, mode="stream") for c in cases[::7] if len(c["cuts"]) <= 12], "gen_parse_srv", PT, True, par))
 
     # 3. parsing, code -> spec: random well-formed pipelines and hostile streams ------------------------------------------------
@@ -317,8 +326,8 @@ def run(ctx):
     ctx.sample({"kind": "random well-formed pipeline (first 300 bytes) fed to the real parser", "stream": bytes.fromhex(wf[0]["hex"])[:300].decode("latin-1"),
                 "cuts": wf[0]["cuts"][:20]})
     ctx.sample({"kind": "hostile stream fed to the real parser", "stream": bytes.fromhex(host[3]["hex"])[:200].decode("latin-1"), "cuts": host[3]["cuts"][:20]})
-    tasks.append(("parse", wf, "rnd_wf", PT, False, par))
-    tasks.append(("parse", host, "rnd_hostile", PT, False, par))
+    tasks.append(("parse", wf, "rnd_wf", PT, False, parts_for(len(wf) * 8)))
+    tasks.append(("parse", host, "rnd_hostile", PT, False, parts_for(len(host) * 2)))
     srv_wf = [dict(gen_wf_case(rnd, close_ok=(i % 3 == 0)), mode="stream") for i in range(nwf // 4)]
     srv_wf = [c for c in srv_wf if len(c["cuts"]) <= 40]
     srv_host = [dict(c, mode="stream") for c in host[::4] if len(c["cuts"]) <= 40]
@@ -334,7 +343,7 @@ def run(ctx):
             scripts.append(sc)
     ctx.notes.append("Gen_HttpPipeline: %d model behaviours -> %d distinct environment scripts replayed on a real Server" % (len(hists), len(scripts)))
     ctx.sample({"kind": "model pipeline behaviour replayed on a real http::server::Server", "script": scripts[len(scripts) // 2]})
-    tasks.append(("srv", scripts, "gen_pipe", QT, True, par))
+    tasks.append(("srv", scripts, "gen_pipe", QT, True, parts_for(len(scripts) * 2)))
 
     # 5. pipelining, code -> spec: long random pipelines ---------------------------------------------------------------------------
     rs = [gen_pipe_script(rnd) for _ in range(400 if q else 6000)]
